@@ -31,7 +31,8 @@ SPEC = dict(
           "(0..75 s) each with a drawn client, address list (14 entry kinds, length 0|1|2-4|50-52|120), request shape (normal | "
           "wrong first message | half a request then pause then rest or reset | oversized), dial-data script (correct | short "
           "by 1..n-150 | tiny messages | varied sizes | non-protobuf frames | hollow frames announcing more data than they "
-          "carry | early close/reset | message > 8192 B; pauses before/in the middle), dial-back handler (answer | delayed | "
+          "carry | truncated last message (outer length prefix announces more than follows, then CloseWrite) at drawn points "
+          "of the owed amount | early close/reset | message > 8192 B; pauses before/in the middle), dial-back handler (answer | delayed | "
           "reset | close) and request-stream reset stage (never | at the dial-back nonce | after the dial-back answer | after "
           "the request | after the dial data); dial-data bytes are counted on the wire of the raw client; faults_fired counts the byzantine "
           "behaviours that were actually executed; non-trivial = the dialer host dialled at least once and at least two "
